@@ -156,7 +156,13 @@ def run_primitives(tier, seed, wd):
                 cases += exhaustive_case(m)
     jobs = os.path.join(wd, "prim-jobs.json")
     json.dump({"nets": nets, "cases": cases}, open(jobs, "w"))
-    common.harness(["prims", jobs, os.path.join(wd, "prim-out")], timeout=3600)
+    why = common.build_prims()
+    if why is not None:
+        return {"unavailable": why, "cases": 0, "ops": 0, "accepted": 0, "drift": [], "states": 0, "distinct": 0,
+                "networks": len(nets), "primitives": []}
+    r = common.sh([common.PRIMS_BIN, jobs, os.path.join(wd, "prim-out")], timeout=3600)
+    if r.returncode != 0:
+        raise ToolError("harness prims failed: %s" % (r.stderr or r.stdout)[-2000:])
     # one TLC process per (network, chunk of cases)
     parts = []
     for m in nets:
@@ -205,7 +211,7 @@ def selftest(seed=1):
     """binding demonstration: one tuple toggled in one recorded result per case -> every case must be rejected"""
     wd = common.workdir("prims-selftest")
     r = run_primitives("quick", seed, wd)
-    assert not r["drift"], r["drift"]
+    assert not r["drift"] and "unavailable" not in r, r
     rng = random.Random(seed)
     parts = sorted(f for f in os.listdir(wd) if f.startswith("prim-") and f.endswith(".json") and f != "prim-jobs.json")
     total = rejected = 0
